@@ -206,24 +206,28 @@ theorem subscribeFilters_codes_all (id : Nat) (subId : Option Nat) (hsub : subId
 def unsubGroup (s : RState) (f cid : String) : RState :=
   match extractGroup f with
   | none => s
-  | some (gname, _) =>
+  | some (gname, path) =>
     match alookup gname s.shared with
     | none => s
     | some g =>
       let g' := g.removeClient cid
-      { s with shared := if g'.clients.isEmpty then aremove gname s.shared else ainsert gname g' s.shared }
+      if g'.clients.isEmpty then { s with shared := aremove gname s.shared }
+      else
+        let moved := if g'.current != g.current then (s.datalog.filterIdx? path).toList else []
+        { s with shared := ainsert gname g' s.shared, turnMoved := s.turnMoved ++ moved }
 
-def unsubConn (c : Conn) (f : String) : Conn :=
+def unsubConn (d : DataLog) (c : Conn) (f : String) : Conn :=
   { c with subscriptions := c.subscriptions.filter (· ≠ f),
            brokerAliases := c.brokerAliases.map (fun b => BrokerAliases.removeAlias b f),
            subscriptionIds := aremove f c.subscriptionIds,
-           tracker := { c.tracker with requests := c.tracker.requests.filter (·.filter ≠ f) } }
+           tracker := { c.tracker with requests := c.tracker.requests.filter (·.filter ≠ f) },
+           out := unsubOut d (c.subscriptions.filter (· ≠ f)) c.out f }
 
 /-- the state after one filter of an UNSUBSCRIBE was removed -/
 def unsubOne (s : RState) (id : Nat) (f : String) (ids : List Nat) (c : Conn) : RState :=
   let s : RState := { s with subscriptionMap := ainsert f (ids.filter (· ≠ id)) s.subscriptionMap }
   let s := unsubGroup s f c.clientId
-  let s := setConn s id (unsubConn c f)
+  let s := setConn s id (unsubConn s.datalog c f)
   let s : RState := { s with datalog := removeWaiterFor s.datalog id f }
   let s : RState := { s with notifications := s.notifications.filter (fun n => !(n.1 == id && n.2.filter == f)) }
   s.g (.unsubscribed id f)
@@ -265,7 +269,10 @@ theorem unsubGroup_same (s : RState) (f cid : String) :
   unfold unsubGroup
   split
   · simp
-  · split <;> simp
+  · split
+    · simp
+    · simp only []
+      split <;> simp
 
 theorem unsubOne_frame (s : RState) (id : Nat) (f : String) (ids : List Nat) (c : Conn)
     (hc : getConn s id = some c) : AckFrame s (unsubOne s id f ids c) := by
@@ -274,7 +281,7 @@ theorem unsubOne_frame (s : RState) (id : Nat) (f : String) (ids : List Nat) (c 
     AckFrame.of_eq hg.2.1 hg.1
   have hc1 : getConn (unsubGroup { s with subscriptionMap := ainsert f (ids.filter (· ≠ id)) s.subscriptionMap } f c.clientId) id = some c := by
     unfold getConn; rw [hg.1]; exact hc
-  exact AckFrame.congr (f1.trans (AckFrame.setConn hc1 (c' := unsubConn c f) rfl)) rfl rfl
+  exact AckFrame.congr (f1.trans (AckFrame.setConn hc1 (c' := unsubConn _ c f) rfl)) rfl rfl
 
 theorem unsubscribeFilters_frame (id : Nat) : ∀ (fs : List String) {s s' : RState} {rs rs' : List Bool},
     unsubscribeFilters s id fs rs = .ok (s', rs') → AckFrame s s' ∧ rs'.length = rs.length + fs.length ∧
